@@ -240,7 +240,7 @@ pub mod read {
         timeout: std::time::Duration,
     ) -> Result<usize, Error> {
         assert!(buffer.len() == *read);
-        if buffer.len() == max_len {
+        if buffer.len() >= max_len {
             return Err(Error::HeaderTooLong);
         }
 
@@ -253,7 +253,9 @@ pub mod read {
         }
 
         unsafe { buffer.set_len(buffer.capacity()) };
-        let read_now = tokio::time::timeout(timeout, reader.read(&mut buffer[*read..]))
+        // never read past `max_len`; else the check above can be stepped over
+        let end = buffer.len().min(max_len);
+        let read_now = tokio::time::timeout(timeout, reader.read(&mut buffer[*read..end]))
             .await
             .ok()
             .ok_or(Error::UnexpectedEnd)?
